@@ -197,6 +197,56 @@ func (c verifFixtureIdxGood) Infer(t ColumnType) error {
 	return nil
 }
 
+// C06.data-index: a dense table indexed by a signed raw value behind an upper-bound test only.
+func verifFixtureEnumTableBad(raw []Enum8, names []string) []string {
+	var out []string
+	for _, v := range raw {
+		if int(v) >= len(names) {
+			return nil
+		}
+		out = append(out, names[v])
+	}
+	return out
+}
+
+// C06.data-index negative control.
+func verifFixtureEnumTableGood(raw []Enum8, names []string) []string {
+	var out []string
+	for _, v := range raw {
+		if v < 0 || int(v) >= len(names) {
+			return nil
+		}
+		out = append(out, names[v])
+	}
+	return out
+}
+
+// C16.counters: a running count kept by Append and Reset, forgotten by DecodeColumn.
+type verifFixtureCounted struct {
+	Data ColUInt8
+	size int
+}
+
+func (c *verifFixtureCounted) Append(v uint8) { c.Data = append(c.Data, v); c.size++ }
+func (c *verifFixtureCounted) Reset()         { c.Data = c.Data[:0]; c.size = 0 }
+func (c *verifFixtureCounted) DecodeColumn(r *Reader, rows int) error {
+	return c.Data.DecodeColumn(r, rows)
+}
+
+// C16.counters negative control.
+type verifFixtureCountedGood struct {
+	Data ColUInt8
+	size int
+}
+
+func (c *verifFixtureCountedGood) Append(v uint8) { c.Data = append(c.Data, v); c.size++ }
+func (c *verifFixtureCountedGood) Reset()         { c.Data = c.Data[:0]; c.size = 0 }
+func (c *verifFixtureCountedGood) DecodeColumn(r *Reader, rows int) error {
+	err := c.Data.DecodeColumn(r, rows)
+	c.size = len(c.Data)
+	return err
+}
+
 // C08: interprets a partial read.
 func verifFixtureRawRead(r io.Reader, buf []byte) (int, error) {
 	n, err := r.Read(buf)
@@ -348,6 +398,19 @@ func runFixtures(c *Ctx, prop string) {
 		}
 		record("verifFixtureConnOverChannel", "conn-channel", true, got)
 	}
+	if prop == "C16" {
+		for name, want := range map[string]bool{"verifFixtureCounted": true, "verifFixtureCountedGood": false} {
+			got := !want
+			if nm := p.NamedType(core.PkgProto, name); nm != nil {
+				checked, gaps := contentCounterGaps(p, nm)
+				got = len(gaps) > 0
+				if checked == 0 {
+					got = !want
+				}
+			}
+			record(name, "C16.counters", want, got)
+		}
+	}
 	if prop == "C14" || prop == "C16" {
 		for name, want := range map[string]bool{"verifFixtureChainScratch": true, "verifFixtureChainFresh": false} {
 			fn := fns[name]
@@ -383,6 +446,22 @@ func runFixtures(c *Ctx, prop string) {
 				got = !got
 			}
 			record(nm.Obj().Name()+".Infer", "C06.infer-index", nm.Obj().Name() == "verifFixtureIdxBad", got)
+		}
+		for name, want := range map[string]bool{"verifFixtureEnumTableBad": true, "verifFixtureEnumTableGood": false} {
+			got := !want
+			if fn := fns[name]; fn != nil {
+				sites := dataIndexSites(fn)
+				got = false
+				for _, s := range sites {
+					if !s.okUp || !s.okLo {
+						got = true
+					}
+				}
+				if len(sites) == 0 {
+					got = !want
+				}
+			}
+			record(name, "C06.data-index", want, got)
 		}
 		for _, fn := range p.Funcs() {
 			nm := core.RecvNamed2(fn)
